@@ -164,6 +164,8 @@ class ParserState:
 
     def peek(self) -> str | None:
         """Return the value at the top of the user stack, or None if empty."""
+        if self.user_stack.empty():
+            return None
         return self.user_stack.peek()
 
     def peek_slice(
